@@ -296,7 +296,7 @@ class ModelVal(object):
         c = self._ev(UF('format_conv%d' % conv, 2)(z3.IntVal(self.v), const_code(spec)))
         return '' if c == 0 else '<fmt%d %d>' % (conv, c)
     def __format__(self, spec): return self._fmt(-1, spec)
-    def __repr__(self): return self._fmt(114, '') or '<empty repr>'
+    def __repr__(self): return '\u27e8%s\u27e9' % (self._fmt(114, '') or 'empty repr')      # non-ASCII, so that !a (ascii) and !r (repr) differ as they can in Python
     def __str__(self): return self._fmt(115, '') or ''
 
 
